@@ -213,7 +213,7 @@ func (r *Run) ExecStep(st Step) {
 		r.DoCorrupt(st.Disk)
 	case st.Disk != nil:
 		r.DoDisk(st.Disk)
-		if st.Disk.Kind == "tail_torn" || st.Disk.Kind == "legacy_task" || st.Disk.Kind == "inflate" {
+		if st.Disk.Kind == "tail_torn" || st.Disk.Kind == "legacy_task" || st.Disk.Kind == "inflate" || st.Disk.Kind == "tail_partial_batch" {
 			r.resyncQuiet()
 		}
 	case st.Batch != nil:
